@@ -5,6 +5,7 @@ import (
 	"encoding/json"
 	"fmt"
 
+	"github.com/elementsproject/peerswap/lightning"
 	"go.etcd.io/bbolt"
 )
 
@@ -221,6 +222,25 @@ func (p *bboltStore) ListAllByPeer(peer string) ([]*SwapStateMachine, error) {
 	}
 
 	return swaps, nil
+}
+
+// UnfinishedSwapOnChannel returns the id of a stored swap on the channel that
+// has started and is not finished, ignoring the swap exceptId, or "". Short
+// channel ids are compared independent of their separator.
+func (p *bboltStore) UnfinishedSwapOnChannel(channelId, exceptId string) (string, error) {
+	swaps, err := p.ListAll()
+	if err != nil {
+		return "", err
+	}
+	for _, swap := range swaps {
+		if swap.IsFinished() || swap.Current == Default || swap.Data == nil || swap.SwapId == nil || swap.SwapId.String() == exceptId {
+			continue
+		}
+		if lightning.Scid(swap.Data.GetScid()).ClnStyle() == lightning.Scid(channelId).ClnStyle() {
+			return swap.SwapId.String(), nil
+		}
+	}
+	return "", nil
 }
 
 func (p *bboltStore) idExists(id string) (bool, error) {
